@@ -2,6 +2,8 @@
 
 from __future__ import annotations
 
+from .vloop import texc
+
 import itertools
 from typing import Any
 
@@ -87,8 +89,8 @@ def run_case(ci: int, seq: tuple[tuple[int, int], ...]) -> list[tuple[str, str]]
                     coro = {"set_up": cover.set_up, "set_down": cover.set_down, "stop": cover.stop}.get(ev)
                     task = w.spawn(coro() if coro else cover.set_position(int(ev[13:-1])), name="harness-user")
                     w.loop.settle()
-                    if task.done() and not task.cancelled() and task.exception() is not None:
-                        viols.append((exc_sig("cover-command-raises", task.exception()), f"{ev}: {task.exception()!r}; trace={trace}"))  # type: ignore[arg-type]
+                    if task.done() and not task.cancelled() and texc(task) is not None:
+                        viols.append((exc_sig("cover-command-raises", texc(task)), f"{ev}: {texc(task)!r}; trace={trace}"))  # type: ignore[arg-type]
                 w.loop.settle()
                 prev = observe(f"after {ev}", None)
             # horizon: let every travel finish (2 x the longest travel time), nothing may be left moving
